@@ -42,6 +42,7 @@ enum Cmd {
     CacheNew(usize, usize),
     CacheLoad(usize),
     SetGen(usize),
+    Move(usize, usize),
 }
 
 struct Program {
@@ -77,6 +78,7 @@ fn parse_cmd(s: &str) -> Cmd {
         "cachenew" => Cmd::CacheNew(n(1), n(2)),
         "cacheload" => Cmd::CacheLoad(n(1)),
         "setgen" => Cmd::SetGen(n(1)),
+        "move" => Cmd::Move(n(1), n(2)),
         _ => panic!("bad command {}", s),
     }
 }
@@ -158,7 +160,7 @@ fn cmd_enabled(c: &Cmd) -> bool {
     };
     match c {
         Cmd::Clone(h, _) => matches!(kind(*h), HKind::Owned | HKind::Guard),
-        Cmd::Drop(h) => kind(*h) != HKind::Empty,
+        Cmd::Drop(h) | Cmd::Move(h, _) => kind(*h) != HKind::Empty,
         Cmd::GuardInto(h, _) => kind(*h) == HKind::Guard,
         Cmd::Store(_, v) | Cmd::Swap(_, v, _) => src_owned(v),
         Cmd::Cas(_, cur, new, _) => {
@@ -326,6 +328,11 @@ where
                 let a = addr_of(cache.load());
                 self.put(*k, Handle::Cache(cache));
                 format!("O {}", a)
+            }
+            Cmd::Move(h, h2) => {
+                let v = self.take(*h);
+                self.put(*h2, v);
+                "U".into()
             }
             Cmd::SetGen(g) => {
                 arc_swap::verif::set_generation(*g);
